@@ -1016,6 +1016,12 @@ def degree_elevation(degree, ctrlpts, **kwargs):
         if num <= 0:
             raise GeomdlException("Cannot degree elevate " + str(num) + " times")
 
+    # Control "points" which are rows of points (the control net of a surface or a volume in one parametric direction):
+    # every column of the net is a control polygon of its own
+    if isinstance(ctrlpts[0][0], (list, tuple)):
+        columns = [degree_elevation(degree, [row[idx] for row in ctrlpts], **kwargs) for idx in range(len(ctrlpts[0]))]
+        return [[column[i] for column in columns] for i in range(len(columns[0]))]
+
     # Initialize variables
     num_pts_elev = degree + 1 + num
     pts_elev = [[0.0 for _ in range(len(ctrlpts[0]))] for _ in range(num_pts_elev)]
@@ -1057,6 +1063,12 @@ def degree_reduction(degree, ctrlpts, **kwargs):
             raise GeomdlException("Degree reduction can only work with Bezier-type geometries")
         if degree < 2:
             raise GeomdlException("Input spline geometry must have degree > 1")
+
+    # Control "points" which are rows of points (the control net of a surface or a volume in one parametric direction):
+    # every column of the net is a control polygon of its own
+    if isinstance(ctrlpts[0][0], (list, tuple)):
+        columns = [degree_reduction(degree, [row[idx] for row in ctrlpts], **kwargs) for idx in range(len(ctrlpts[0]))]
+        return [[column[i] for column in columns] for i in range(len(columns[0]))]
 
     # Initialize variables
     pts_red = [[0.0 for _ in range(len(ctrlpts[0]))] for _ in range(degree)]
